@@ -162,6 +162,11 @@ def run(ctx):
         ctx.broke("translator tr_handlers / tr_wire aborted", repr(e))
         ttext = None
     ctx.proofs() if ttext is not None else None
+    # extension: the decorators translated from the AST (gen/G01_auth.v), theorems in props/C01x.v
+    from tools.checks import c01_auth_gen
+    xtext = c01_auth_gen.translate(ctx) if ttext is not None else None
+    if xtext is not None:
+        ctx.proofs(part="C01x")
     ctx.coverage["trusted_base"] = [
         "Coq 8.16.1 kernel; no axioms",
         "signature scheme (verify, siglen) is a Section variable: unforgeability of the Rust/libsodium primitive is assumed, not proved",
@@ -176,6 +181,7 @@ def run(ctx):
         loop.run_until_complete(_run(ctx, ttext))
     finally:
         loop.close()
+    c01_auth_gen.stage(ctx, text=xtext)
 
 
 async def _run(ctx, ttext):
@@ -184,7 +190,7 @@ async def _run(ctx, ttext):
     from ipv8.peer import Peer
     r = ctx.rng("main")
     ser = wire.make_serializer()
-    reg = wire.registry(ser)
+    reg = wire.registry_for_harness(ctx, ser)
     vkeys = [ec.generate_key("curve25519").pub().key_to_bin() for _ in range(2)]
     gen_class = c02.make_gen_class(reg, vkeys)
     classes = c03.overlay_classes()
@@ -426,7 +432,10 @@ def replay(path):
     for v in js.get("violations", []):
         print(v["key"], "::", v["what"])
         c = v["case"]
-        if c.get("kind") == "datagram":
+        if c.get("kind") in ("decorator", "decorator-fan", "ez_unpack_auth", "ezr_pack", "history"):
+            from tools.checks import c01_auth_gen
+            rc |= c01_auth_gen.replay_case(c)
+        elif c.get("kind") == "datagram":
             ok, pk = independent_auth(bytes.fromhex(c["data"]))
             print("  independent signature check of the recorded datagram:", ok, "key field:", pk.hex()[:16] if pk else None)
             rc = 1
